@@ -59,26 +59,60 @@ RulesMore == {
 
 Rules == RulesCore \cup RulesMore
 
+\* ---- AddFromString items that are none of the documented forms (PerHost header)
+JunkR(j) == [k |-> "junk", via |-> "str", l |-> <<>>, sp |-> "l", lead |-> "", b |-> <<>>, bits |-> 0, j |-> j]
+JunkKinds == {"cidr33", "cidrab", "cidrnobits", "cidrnoaddr", "cidrzone", "path", "empty", "space", "stardot", "dot", "star"}
+JunkMid   == IF Lvl = 1 THEN {"cidr33", "empty", "stardot", "star"} ELSE JunkKinds
+Junk      == {JunkR(j) : j \in JunkKinds}
+IsJunk(r) == r.k = "junk"
+HasJunk(rules) == \E i \in 1 .. Len(rules) : IsJunk(rules[i])
+\* one well-formed item of every kind, in the same string as the junk item; each is the only rule
+\* that matches "its" dial target (localhost / www.example.com / 10.1.2.3 / 2001:db8::1)
+FHost == HostR("str", <<"localhost">>, "l")
+FZone == ZoneR("str", <<"example", "com">>, "l", ".")
+FIp   == IpR("str", V4(10, 1, 2, 3))
+FNet  == NetR("str", Doc6(0, 0, 0), 33)
+Follow == {FHost, FZone, FIp, FNet}
+NextF(r) == CASE r = FHost -> FNet [] r = FNet -> FZone [] r = FZone -> FIp [] OTHER -> FHost
+\* dial targets printed for configurations with a junk item (quick tier)
+HostsJ == { NameH(<<"localhost">>, "l"), NameH(<<"www", "example", "com">>, "l"), NameH(<<"example", "com">>, "d"),
+            NameH(<<"myexample", "com">>, "l"), NameH(<<"example", "org">>, "l"),
+            IpH(V4(10, 1, 2, 3)), IpH(V4(10, 128, 0, 0)), IpH(Doc6(0, 0, 1)), IpH(Doc6(128, 0, 1)) }
+
+\* quick tier: pairs over this subset only
+RulesPair == RulesCore \ { IpR("api", V4(10, 1, 2, 3)), HostR("str", <<"localhost">>, "l") }
+
 Triple == { IpR("str", V4(10, 1, 2, 3)), NetR("str", V4(10, 0, 0, 0), 9), NetR("str", Doc6(0, 0, 0), 33),
             ZoneR("str", <<"example", "com">>, "l", "."), HostR("str", <<"example", "com">>, "d"),
             HostR("api", <<"www", "example", "com">>, "l") }
 
+\* junk item first: <<junk>>, <<junk, f>>;  last: <<f, junk>>;  middle: <<f, junk, f'>>
+NextJ(rules) ==
+    LET n == Len(rules) IN
+    IF n = 0 THEN Junk
+    ELSE IF n = 1 /\ IsJunk(rules[1]) THEN Follow
+    ELSE IF n = 1 /\ rules[1] \in Follow THEN {JunkR(j) : j \in JunkMid}
+    ELSE IF n = 2 /\ rules[1] \in Follow /\ IsJunk(rules[2])
+         THEN (IF Lvl = 1 THEN {NextF(rules[1])} ELSE Follow)
+    ELSE {}
+
 Next1(rules) ==
     LET n == Len(rules) IN
-    IF n = 0 THEN Rules
+    IF HasJunk(rules) THEN {}
+    ELSE IF n = 0 THEN Rules
     ELSE IF Lvl = 1
-    THEN IF n = 1 /\ rules[1] \in RulesCore THEN RulesCore ELSE {}
+    THEN IF n = 1 /\ rules[1] \in RulesPair THEN RulesPair ELSE {}
     ELSE IF n = 1 THEN Rules
     ELSE IF n = 2 /\ rules[1] \in Triple /\ rules[2] \in Triple THEN Triple
     ELSE {}
 
 GInit == c = <<>>
-GNext == \E r \in Next1(c) : c' = Append(c, r)
+GNext == \E r \in Next1(c) \cup NextJ(c) : c' = Append(c, r)
 GSpec == GInit /\ [][GNext]_gvars
 
 Item(rules, h) == [cfg |-> rules, h |-> h, r |-> Route(rules, h)]
 
-Emit == \A h \in Hosts : PrintT(<<"CASE", ToJson(Item(c, h))>>)
+Emit == \A h \in (IF Lvl = 1 /\ HasJunk(c) THEN HostsJ ELSE Hosts) : PrintT(<<"CASE", ToJson(Item(c, h))>>)
 
 MonoSet == IF Lvl = 1 THEN {IpR("str", V4(10, 1, 2, 3)), NetR("str", V4(10, 0, 0, 0), 9),
                             ZoneR("str", <<"example", "com">>, "l", "."), HostR("str", <<"example", "com">>, "d")}
@@ -88,5 +122,6 @@ Sane == /\ OrderIrrelevant(c, Hosts)
         /\ Monotone(c, Hosts, MonoSet)
         /\ KindsSeparate(c, Hosts)
         /\ NoRulesDefault(c, Hosts)
+        /\ JunkIrrelevant(c, Hosts)
         /\ \A h \in Hosts : Route(c, h) # {}
 =============================================================================
